@@ -1,6 +1,90 @@
-(* Block-string part of C08.  Theorems only. *)
-From GV Require Import Base.Prelude Lang.Location Lang.Lexer Lang.LexerProps Lang.BlockString Lang.BlockStringProps.
+(* Block-string part of C08 ("every string value, block or quoted, is preserved character for
+   character by print then parse").  Theorems only; proofs in Lang/BlockStringProps.v.
+   Model: Lang/BlockString.v (print_block_string, is_printable_as_block_string, indent_by) and the
+   block-string part of Lang/Lexer.v (read_token -> read_block_loop, dedent, join_lf).
+   Values are lists of Unicode scalar values (lone surrogates are outside). *)
+From GV Require Import Base.Prelude Lang.Location Lang.Lexer Lang.LexerProps Lang.BlockString
+  Lang.BlockStringProps.
 
-Example CBLOCK_example :
-  block_value (tl (tl (tl (removelast (removelast (removelast (print_block_string [32; 97; 10; 34; 34; 34; 34] false))))))) = Ok [32; 97; 10; 34; 34; 34; 34].
-Proof. vm_compute. reflexivity. Qed.
+(* 1. Round trip.  Let v be any value that the lexer can produce for a block string
+   (block_value raw = Ok v for some raw content), made of scalar values.  Print it with
+   print_block_string in either mode (minimize or not), re-indent the printed text line by line
+   with any stack of space/tab pads (indent_all [p1; ..; pn] = indent_by pn o .. o indent_by p1,
+   indent_by p = replace every LF by LF ++ p: what printer.indent does to a nested block string),
+   put anything after it: the lexer reads one BLOCK_STRING token whose value is exactly v, spanning
+   exactly the printed text, and leaves the rest untouched. *)
+Theorem block_roundtrip :
+  forall (raw v : list N) (minimize : bool) (pads : list (list N)) (cu : cursor) (rest : list N),
+  block_value raw = Ok v ->
+  Forall (fun c => is_scalar c = true) v ->
+  Forall (Forall (fun c => is_blank_char c = true)) pads ->
+  exists tk cu',
+    read_token cu (indent_all pads (print_block_string v minimize) ++ rest) = Ok (tk, cu', rest) /\
+    tkind tk = K_BLOCK_STRING /\ thasval tk = true /\ tvalue tk = v /\
+    tstart tk = cpos cu /\
+    tend tk = (cpos cu + length (indent_all pads (print_block_string v minimize)))%nat /\
+    cpos cu' = tend tk.
+Proof.
+  intros raw v m pads cu rest Hraw Hs Hp.
+  exact (block_roundtrip_main v m pads cu rest (block_value_in_range raw v Hraw) Hs Hp).
+Qed.
+Print Assumptions block_roundtrip.
+
+(* the same through the decidable characterisation of the range *)
+Theorem block_roundtrip_in_range :
+  forall (v : list N) (minimize : bool) (pads : list (list N)) (cu : cursor) (rest : list N),
+  in_block_range v = true ->
+  Forall (fun c => is_scalar c = true) v ->
+  Forall (Forall (fun c => is_blank_char c = true)) pads ->
+  exists tk cu',
+    read_token cu (indent_all pads (print_block_string v minimize) ++ rest) = Ok (tk, cu', rest) /\
+    tkind tk = K_BLOCK_STRING /\ thasval tk = true /\ tvalue tk = v /\
+    tstart tk = cpos cu /\
+    tend tk = (cpos cu + length (indent_all pads (print_block_string v minimize)))%nat /\
+    cpos cu' = tend tk.
+Proof. intros v m pads cu rest. exact (block_roundtrip_main v m pads cu rest). Qed.
+Print Assumptions block_roundtrip_in_range.
+
+(* 2. The characterisation is exact: v (of scalar values) satisfies in_block_range - no CR, and
+   empty or (first and last line not blank and (a single line, or some non-blank line after the
+   first has indentation 0, or the first line has indentation 0)) - iff some raw content of
+   scalar values denotes it. *)
+Theorem block_range_char : forall v : list N,
+  (in_block_range v = true /\ Forall (fun c => is_scalar c = true) v) <->
+  (exists raw, Forall (fun c => is_scalar c = true) raw /\ block_value raw = Ok v).
+Proof. exact block_range_char_main. Qed.
+Print Assumptions block_range_char.
+
+(* the inclusion holds for every BLOCK_STRING token of every source, surrogate pairs included *)
+Theorem block_token_value_in_range : forall cu s tk cu' r,
+  read_token cu s = Ok (tk, cu', r) -> tkind tk = K_BLOCK_STRING ->
+  in_block_range (tvalue tk) = true.
+Proof. exact block_token_in_range. Qed.
+Print Assumptions block_token_value_in_range.
+
+(* 3. Whatever is_printable_as_block_string accepts is in the range (used for SDL descriptions). *)
+Theorem printable_in_range : forall v : list N,
+  is_printable_as_block_string v = true -> in_block_range v = true.
+Proof. exact printable_in_range_main. Qed.
+Print Assumptions printable_in_range.
+
+(* 4. "Any string" in block form must be read as "any string in the range": no raw content at
+   all denotes a lone line feed, nor the two indented lines SPACE a LF SPACE b. *)
+Theorem out_of_range_refuted : forall raw : list N,
+  block_value raw <> Ok [10] /\ block_value raw <> Ok [32; 97; 10; 32; 98].
+Proof.
+  intros raw. split; intros H; apply block_value_in_range in H; vm_compute in H; discriminate.
+Qed.
+Print Assumptions out_of_range_refuted.
+
+(* non-vacuity: a value with a leading blank, an empty line, quotes to escape and a trailing
+   backslash is in the range, is denoted by a raw content, and an instance of the round trip *)
+Example block_example :
+  let v := [32; 97; 10; 10; 34; 34; 34; 34; 92] in
+  in_block_range v = true /\
+  block_value (chosen_raw v) = Ok v /\
+  match read_token init_cursor (indent_all [[32; 32]; [9]] (print_block_string v false) ++ [32; 120]) with
+  | Ok (tk, _, rest) => tvalue tk = v /\ rest = [32; 120]
+  | _ => False
+  end.
+Proof. vm_compute. repeat split; reflexivity. Qed.
